@@ -1,4 +1,5 @@
 import PkVerif.Lemmas.EncryptToy
+import PkVerif.Lemmas.EncryptRefine
 import PkVerif.Gen.C11
 /-!
 # C11 – the encrypting store leaks no plaintext, detects tampering, and is recoverable
@@ -251,5 +252,26 @@ theorem C11_remove_before_upload_counterexample :
     s.index.length = 2 ∧ crashed.metas = [] ∧
     (restart P bad true [] crashed) = ({ crashed with index := [], jobs := [], heap := [], recv := none }, true) := by
   decide
+
+/-! ## refinement of the reference map -/
+
+/-- **Refinement.**  Under the driver's schedule (the packers a receive starts run to their end before the
+next call), the encrypt store answers every history of well-keyed ReceiveBlob / Fetch / StatBlobs /
+EnumerateBlobs calls – whatever compactions happen on the way – exactly as the reference
+content-addressed map of C01 does.  (`RemoveBlobs` is not implemented by the store; histories with `rm`
+are excluded by `OpOK`.) -/
+theorem C11_refines_refmap (P : Params) (I : Ideal P) (content : Bytes → Bytes) (ops : List RefMap.Op)
+    (hops : ∀ op ∈ ops, OpOK P content op) :
+    (encImpl P).run {} ops = RefMap.run [] ops :=
+  refines_refmap I content ops hops {} (sim_init content)
+
+/-- three receives with `small = 1` (two compactions on the way), a duplicate, then reads -/
+example :
+    (encImpl (toyP 1 10)).run {}
+      [.recv (toyDigest [1]) [1], .recv (toyDigest [2, 2]) [2, 2], .recv (toyDigest [3]) [3],
+       .recv (toyDigest [1]) [1], .fetch (toyDigest [2, 2]), .stat (toyDigest [3]), .fetch (toyDigest [9]),
+       .enum [] 2] =
+    [.sized 1, .sized 2, .sized 1, .sized 1, .bytes [2, 2], .sized 1, .notExist,
+     .refs [(toyDigest [1], 1), (toyDigest [2, 2], 2)]] := by decide
 
 end Pk.Encrypt
